@@ -25,7 +25,8 @@ pub fn run(thorough: bool, seed: u64, _replay: Option<String>) -> Report {
         let base = TEXTS.iter().find(|(n, _)| *n == name).unwrap().1;
         let k = rng.range(9_000, 30_000);
         let text = stretch(&mut rng, base, k);
-        if let Some(b) = enc_bytes(&text, enc) {
+        let b = enc_bytes_lossy(&text, enc);
+        if !b.is_empty() {
             pool.push(Case { bytes: b, sett: Sett::default(), tag: format!("legacy-large:{}", enc) });
         }
     }
@@ -52,7 +53,10 @@ pub fn run(thorough: bool, seed: u64, _replay: Option<String>) -> Report {
         // families 0/1 are tiny (a call takes microseconds, so whatever a call does before and after the probing
         // loop makes up most of it and calls of different threads interleave there), 2/3 are ordinary
         let text = if f < 2 { base.chars().take(48).collect::<String>() } else { stretch(&mut rng, base, 700 + 300 * f) };
-        let bytes = match enc_bytes(&text, enc) { Some(b) => b, None => continue };
+        let bytes = enc_bytes_lossy(&text, enc);
+        if bytes.is_empty() {
+            continue;
+        }
         let variants: Vec<Sett> = {
             let d = Sett::default();
             let mut v = vec![];
